@@ -120,7 +120,10 @@ func (b *backendLoginSessionHandler) handleLoginPluginMessage(p *packet.LoginPlu
 		requestedForwardingVersion := velocity.DefaultForwardingVersion
 		// Check version
 		if len(p.Data) == 1 {
-			requestedForwardingVersion = int(p.Data[0])
+			// Velocity reads the requested version with ByteBuf.readByte(), a signed
+			// byte: 0x80..0xff are negative and therefore fall back to the default
+			// version instead of being clamped to the maximum one.
+			requestedForwardingVersion = int(int8(p.Data[0]))
 		}
 
 		forwardingData, err := velocity.CreateForwardingData(
